@@ -1771,8 +1771,40 @@ def camp_space(rnd, tier, which):
     return b
 
 
+def space_sweep(b, rnd, tier, reported_only=False):
+    """retained / reported bytes at every length of a range (quick: around the line and block
+    boundaries; thorough: every n up to 4200): an allocation that is one line or one block too
+    large at particular lengths shows; values are only measured (nv)"""
+    if tier == "thorough":
+        ns = list(range(0, 4201))
+    else:
+        ns = sorted(set(x for m in range(0, 4097, 256) for x in (m - 1, m, m + 1) if x >= 0) | set(rnd.randrange(4200) for _ in range(30)))
+    b.reset()
+    for i, n in enumerate(ns):
+        if i % 200 == 199:
+            b.reset()
+        q = Seqn.from_runs([([0, 1, 2, 3], n // 4), ([1], n % 4)])
+        bits = Seqn.from_runs([([0, 1, 1], n // 3), ([1], n % 3)])
+        for kind in ("RSQ256", "RSQ512"):
+            o = b.newq(kind, "u8", rnd.choice(["new", "collect", "from_qv"]), q, nv=1)
+            b.space(o)
+            b.drop(o)
+        o = b.newt(rnd.choice(QUAD_PLAIN), "u8", rnd.choice(["new", "from_vec", "collect"]), q, nv=1)
+        b.space(o)
+        b.drop(o)
+        o = b.newt("WT", "u8", "from_vec", Seqn.from_runs([([0, 1], n // 2), ([1], n % 2)]), nv=1)
+        b.space(o)
+        b.drop(o)
+        for kind in (("RSW",) if not reported_only else ("RSW", "RSN", "DA1", "BV")):
+            o = b.newb(kind, "new" if kind != "BV" else "bools", bits, nv=1)
+            b.space(o)
+            b.drop(o)
+
+
 def camp_c14(rnd, tier):
-    return camp_space(rnd, tier, "plain")
+    b = camp_space(rnd, tier, "plain")
+    space_sweep(b, rnd, tier)
+    return b
 
 
 def camp_c15(rnd, tier):
@@ -1781,6 +1813,7 @@ def camp_c15(rnd, tier):
 
 def camp_c16(rnd, tier):
     b = camp_space(rnd, tier, "all")
+    space_sweep(b, rnd, tier, reported_only=True)
     # the std containers SpaceUsage is implemented for: flat, with spare capacity, and boxed slices
     # of unequal elements (every element counts, not the first one times the length)
     b.reset()
